@@ -95,6 +95,52 @@ Fixpoint canon (v : dval) : dval :=
 Definition nthN {A} (l : list A) (i : N) : option A :=
   if (i <? N.of_nat (length l))%N then nth_error l (N.to_nat i) else None.
 
+(* the element loops of ArrayDeserializer / ArrayMapDeserializer / StructureDeserializer, parameterised by the
+   recursive decoder *)
+Section Loops.
+  Variable de : dstate -> res cerr (dval * dstate).
+
+  Fixpoint arr_loop (al start n : N) (c : sig) (k : nat) (st : dstate) (acc : list dval) {struct k}
+    : res cerr (list dval * dstate) :=
+    match k with
+    | O => Err EFuel
+    | S k' =>
+        if (t_pos st =? start + n) then Ok (rev acc, st)
+        else
+          let* st := parse_padding st al in
+          let* (v, st) := de st in
+          if (start + n <? t_pos st) then Err EBounds
+          else if negb (sig_eqb (vsig v) c) then Err ESigMismatch
+          else arr_loop al start n c k' st (v :: acc)
+    end.
+
+  Fixpoint dict_loop (start n : N) (ks vs : sig) (k : nat) (st : dstate) (acc : list (dval * dval)) {struct k}
+    : res cerr (list (dval * dval) * dstate) :=
+    match k with
+    | O => Err EFuel
+    | S k' =>
+        if (t_pos st =? start + n) then Ok (rev acc, st)
+        else
+          let* st := parse_padding st 8 in
+          let* (kv, st) := de st in
+          if (start + n <? t_pos st) then Err EBounds else
+          let* (vv, st) := de (tset_sig st vs) in
+          if (start + n <? t_pos st) then Err EBounds else
+          let st := tset_sig st ks in
+          if negb (sig_eqb (vsig kv) ks) || negb (sig_eqb (vsig vv) vs) then Err ESigMismatch
+          else dict_loop start n ks vs k' st ((kv, vv) :: acc)
+    end.
+
+  Fixpoint struct_loop (gs : list sig) (st : dstate) (acc : list dval) {struct gs}
+    : res cerr (list dval * dstate) :=
+    match gs with
+    | [] => Ok (rev acc, st)
+    | g :: r =>
+        let* (v, sub) := de (tset_sig st g) in
+        struct_loop r (tset_pos st (t_pos sub)) (v :: acc)
+    end.
+End Loops.
+
 Fixpoint de_any (fuel : nat) (st : dstate) {struct fuel} : res cerr (dval * dstate) :=
   match fuel with
   | O => Err EFuel
@@ -158,19 +204,7 @@ Fixpoint de_any (fuel : nat) (st : dstate) {struct fuel} : res cerr (dval * dsta
           let asig := t_sig st in
           let st := tset_sig st c in
           let start := t_pos st in
-          let loop := fix loop (k : nat) (st : dstate) (acc : list dval) {struct k} : res cerr (list dval * dstate) :=
-              match k with
-              | O => Err EFuel
-              | S k' =>
-                  if (t_pos st =? start + n)%N then Ok (rev acc, st)
-                  else
-                    let* st := parse_padding st al in
-                    let* (v, st) := de_any f st in
-                    if (start + n <? t_pos st)%N then Err EBounds
-                    else if negb (sig_eqb (vsig v) c) then Err ESigMismatch      (* Array::append *)
-                    else loop k' st (v :: acc)
-              end in
-          let* (l, st) := loop (S (length (t_bytes st))) st [] in
+          let* (l, st) := arr_loop (de_any f) al start n c (S (length (t_bytes st))) st [] in
           Ok (VArray c l, tset_sig (tset_dep st (dec_array (t_dep st))) asig)
       | SDict ks vs =>
           let* st := parse_padding st 4 in
@@ -182,35 +216,13 @@ Fixpoint de_any (fuel : nat) (st : dstate) {struct fuel} : res cerr (dval * dsta
           let asig := t_sig st in
           let st := tset_sig st ks in
           let start := t_pos st in
-          let loop := fix loop (k : nat) (st : dstate) (acc : list (dval * dval)) {struct k} : res cerr (list (dval * dval) * dstate) :=
-              match k with
-              | O => Err EFuel
-              | S k' =>
-                  if (t_pos st =? start + n)%N then Ok (rev acc, st)
-                  else
-                    let* st := parse_padding st 8 in
-                    let* (kv, st) := de_any f st in
-                    if (start + n <? t_pos st)%N then Err EBounds else
-                    let* (vv, st) := de_any f (tset_sig st vs) in
-                    if (start + n <? t_pos st)%N then Err EBounds else
-                    let st := tset_sig st ks in
-                    if negb (sig_eqb (vsig kv) ks) || negb (sig_eqb (vsig vv) vs) then Err ESigMismatch   (* Dict::append *)
-                    else loop k' st ((kv, vv) :: acc)
-              end in
-          let* (l, st) := loop (S (length (t_bytes st))) st [] in
+          let* (l, st) := dict_loop (de_any f) start n ks vs (S (length (t_bytes st))) st [] in
           Ok (VDict ks vs l, tset_sig (tset_dep st (dec_array (t_dep st))) asig)
       | SStruct fs =>
           let* st := parse_padding st 8 in
           let* d := inc_struct (t_dep st) in
           let st := tset_dep st d in
-          let loop := fix loop (gs : list sig) (st : dstate) (acc : list dval) {struct gs} : res cerr (list dval * dstate) :=
-              match gs with
-              | [] => Ok (rev acc, st)
-              | g :: r =>
-                  let* (v, sub) := de_any f (tset_sig st g) in
-                  loop r (tset_pos st (t_pos sub)) (v :: acc)
-              end in
-          let* (l, st) := loop fs st [] in
+          let* (l, st) := struct_loop (de_any f) fs st [] in
           Ok (VStruct l, match fs with [] => st | _ => tset_dep st (dec_struct (t_dep st)) end)
       | SMaybe _ => Err EOther     (* deserialize_option: error without option-as-array, signature mismatch with it *)
       end
